@@ -471,7 +471,7 @@ static std::string sis_case(const std::string& cls, uint64_t seed, const Data12&
 
 static std::string fault_case(Toks& t) {
     std::string cls = t.tok(); uint64_t seed = (uint64_t)t.nat(); long n = t.nat(), m = t.nat(), k = t.nat(), sub = t.nat();
-    if (n < 1 || n > 6 || m < 1 || m > 6 || k < 1 || k > 8 || sub < 1 || sub > 8) throw vh::BadArgs("size");
+    if (n < 1 || n > 6 || m < 1 || m > 6 || k < 1 || k > 4096 || sub < 1 || sub > 8) throw vh::BadArgs("size");
     std::shared_ptr<Script> s(new Script()); parse_scripts(t, *s);
     long reps = 1; bool alias = false; g_deco = g_move = g_massign = g_degen = false; g_pre = -1;
     while (!t.empty()) {
